@@ -45,9 +45,15 @@ def main():
     for flt in ('SizeFilter', 'PrefixFilter', 'PositionFilter', 'SuffixFilter'):
         for measure in (('JACCARD',) if quick else ('JACCARD', 'COSINE', 'DICE')):
             ck.e2('tables-%s-%s' % (flt, measure), h_core.make(dict(
-                entry='filter_split', filter=flt, measure=measure, nl=1, nr=2, k=4 if flt == 'SuffixFilter' else 3,
+                entry='filter_split', filter=flt, measure=measure, nl=1, nr=2, k=3,
                 thresholds=thr, props=P)), stop_on_violation=False,
                 bounds=dict(rows='1x2', k=3, thresholds=thr))
+        if flt == 'SuffixFilter':
+            # the recorded known finding needs a (4,3)-token pair: one wide pair (1x2 in the thorough tier)
+            ck.e2('tables-SuffixFilter-JACCARD-k4', h_core.make(dict(
+                entry='filter_split', filter=flt, measure='JACCARD', nl=1, nr=1 if quick else 2, k=4,
+                thresholds=[0.5, 0.75], props=P)), stop_on_violation=False,
+                bounds=dict(rows='1x1' if quick else '1x2', k=4))
         ck.e2('tables-%s-OVERLAP' % flt, h_core.make(dict(
             entry='filter_split', filter=flt, measure='OVERLAP', nl=1, nr=2, k=3, thresholds=[1, 2],
             props=P)), stop_on_violation=False)
